@@ -311,20 +311,46 @@ def r5(c, db):
     fn = repo.func("annet.vendors.registry", "Registry.match")
     c.count("functions")
     pv = Provenance(fn)
-    appends = [x for x in calls_in(fn) if isinstance(x.func, ast.Attribute) and x.func.attr == "append" and x.args and isinstance(x.args[0], ast.Tuple)]
-    ok_rank = any(len(a.args[0].elts) == 2 and "count('.')" in norm(a.args[0].elts[1]).replace('"', "'") for a in appends)
+    # candidate tuples (vendor, rank): appended in a loop or produced by a comprehension
+    cands = [x.args[0] for x in calls_in(fn) if isinstance(x.func, ast.Attribute) and x.func.attr == "append" and x.args and isinstance(x.args[0], ast.Tuple)]
+    cands += [n.elt for n in ast.walk(fn) if isinstance(n, (ast.ListComp, ast.GeneratorExp, ast.SetComp)) and isinstance(n.elt, ast.Tuple)]
+    rank_idx = None
+    for t in cands:
+        for i, e in enumerate(t.elts):
+            if "count('.')" in norm(e).replace('"', "'"):
+                rank_idx = i
+    ok_rank = rank_idx is not None
+
+    def by_rank(call):
+        for k in call.keywords:
+            if k.arg == "key":
+                kv = norm(pv.resolve_alias(k.value))
+                return f"itemgetter({rank_idx})" in kv or f"[{rank_idx}]" in kv
+        return False
     rets = [n for n in walk_no_nested(fn) if isinstance(n, ast.Return) and n.value is not None]
     argmax = False
+    selection_seen = False
+    picks = [norm(x) for x in ast.walk(fn) if isinstance(x, ast.Subscript) and isinstance(x.slice, (ast.Constant, ast.UnaryOp))] + \
+            [norm(x) for x in ast.walk(fn) if isinstance(x, ast.Call) and call_name(x) == "next"]
     for r in rets:
-        for call in [x for x in ast.walk(r.value) if isinstance(x, ast.Call)]:
+        sel_calls = [x for x in ast.walk(r.value) if isinstance(x, ast.Call)] + pv.origin_calls(r.value, through_calls=True)
+        for call in sel_calls:
             nm = call_name(call)
-            if nm == "sorted" and any(k.arg == "reverse" and isinstance(k.value, ast.Constant) and k.value.value is True for k in call.keywords) \
-                    and any(k.arg == "key" and ("itemgetter(1)" in norm(k.value) or "[1]" in norm(k.value)) for k in call.keywords):
-                argmax = True
-            if nm == "max" and any(k.arg == "key" and ("itemgetter(1)" in norm(k.value) or "[1]" in norm(k.value)) for k in call.keywords):
+            if nm in ("sorted", "max", "min"):
+                selection_seen = True
+            if nm == "sorted" and ok_rank and by_rank(call):
+                rev = any(k.arg == "reverse" and isinstance(k.value, ast.Constant) and k.value.value is True for k in call.keywords)
+                first = any(p_.endswith("[0]") or p_.startswith("next(") for p_ in picks)
+                last = any(p_.endswith("[-1]") for p_ in picks)
+                if (rev and first) or (not rev and last and not first):
+                    argmax = True
+            if nm == "max" and ok_rank and by_rank(call):
                 argmax = True
     if ok_rank and argmax:
         c.holds("C18.R5", repo.loc(m, fn), "Registry.match/argmax", "most dotted matching expression wins")
+    elif selection_seen:
+        c.violated("C18.R5", repo.loc(m, fn), "Registry.match/argmax", "the vendor is selected by sorted/max/min, but not as the maximum of the dot count of the matched expression: a less "
+                   "specific (or merely earlier/later registered) vendor wins over the most dotted one", key_text="argmax")
     else:
         # loop-based selection: a comparison against a running best whose threshold is updated together with the choice
         upd = False
